@@ -1,11 +1,11 @@
-\* Decides C19 for every stack with a Versioned layer (two views of different versions over one shared
-\* lower stack), all histories of at most MaxOps operations.
+\* Decides C19 for every stacking order with a Versioned layer (two views of different versions over one
+\* shared lower stack): every history of at most MaxOps operations.
 CONSTANTS
   StackIds = {3, 5, 6, 9, 10, 11, 12, 13, 14, 15, 16, 18}
-  Caps = {1, 2}
+  Caps = @@CAPS@@
   DTTLs = {1, 2}
-  Keys = {"k1", "k2"}
-  Values = {"a", "b"}
+  Keys = {k1, k2}
+  Values = {a, b}
   TTLs = {1, 2}
   Deltas = {1}
   NViews = 2
@@ -16,6 +16,7 @@ CONSTANTS
 INIT Init
 NEXT Next
 VIEW View
+SYMMETRY Sym
 CONSTRAINT Bounded
 INVARIANTS TypeOK EncodingConsistent KeysWellPlaced PeekNeverWrong PeekNeverAfterDeadline PeekBoundedStaleness
 PROPERTIES NeverWrong NeverAfterDelete NeverAfterDeadline NeverCorrupt ReadIsPeek NoAlias AddSemantics ReadYourWrites DeleteRemoves
